@@ -303,10 +303,10 @@ func (c *Ctx) chainsTo(from, to *ssa.Function, depth int) [][]*ssa.Call {
 }
 
 func (c *Ctx) checkCallerDisabled(r *Report, R *ssa.Function) {
-	g := c.logGlobal("enableCaller")
+	g := c.names().EnableCaller
 	key := "C11.disabled:" + fname(R)
 	if g == nil {
-		r.Undecided(key, "", "package variable enableCaller not found")
+		r.Undecided(key, "", "the package variable that switches caller look-up on and off was not found (a bool guarding runtime.Caller in the recorder)")
 		return
 	}
 	n := 0
